@@ -32,6 +32,8 @@ CHUNK = 4
 KINDS = ["shared", "crossbar", "shared", "crossbar", "p2p", "arbiter", "decoder"]
 
 
+SEEDED_SCALE = {"quick": 10, "thorough": 10}      # multiplies the run counts of the sampled families in plan()
+
 def plan(tier):
     return [("wb", 200 if tier == "quick" else 12000)]
 
